@@ -171,6 +171,9 @@ func selfDesc(s *schema.ScopeSchema) (any, error) {
 
 func (pureEngine) Run(t *testing.T, batch string, tape *rt.Tape, runIdx uint64, extra json.RawMessage, trace func(string)) RunRecord {
 	rec := RunRecord{Faults: map[string]int{}, Probes: map[string]int{}}
+	if batch == "c12.lib" {
+		return pureLibRun(tape)
+	}
 	recipe := GenScope(tape, GenOpts{MaxObjects: 3, MaxProps: 4, MaxDepth: 2, Prefix: "P"})
 	var S *schema.ScopeSchema
 	buildErr := ""
@@ -332,6 +335,22 @@ func mutateRecipe(s Src, r *ScopeRecipe) (*ScopeRecipe, string) {
 			return ":!" + m
 		}
 		return ":" + m // reachability of nested objects is not tracked: no expectation
+	}
+	if s.Choose("mu.oneof", 5) == 4 {
+		// a one-of member of the producer points at another object than the consumer's member for that value
+		for i := range obj.Props {
+			t := &obj.Props[i].T
+			if t.Kind == "oneof_s" && len(t.OneOf) >= 1 && len(out.Objects) >= 2 {
+				j := s.Choose("mu.oneofmember", len(t.OneOf))
+				cur := t.OneOf[j][1]
+				for _, o := range out.Objects {
+					if o.ID != cur && o.ID != obj.ID && !o.Unenforced && !out.object(cur).Unenforced {
+						t.OneOf[j][1] = o.ID
+						return out, mark("oneof-member-differs")
+					}
+				}
+			}
+		}
 	}
 	switch s.Choose("mu.kind", 9) {
 	case 0:
@@ -587,6 +606,81 @@ func (compatEngine) Run(t *testing.T, batch string, tape *rt.Tape, runIdx uint64
 	rec.Faults["map-order"] = sitesDrawn
 	rec.Steps = len(pairs)
 	rec.Sample = map[string]any{"pairs": descs, "objects": len(recipe.Objects), "map_iterations_ordered": sitesDrawn}
+	if len(rec.Violations) > 0 {
+		rec.Outcome = "violation"
+	} else {
+		rec.Outcome = "ok"
+	}
+	return rec
+}
+
+// pureLibRun is the C12 history check on the struct-mapped library scope (defaults of non-pointer
+// object members, sub-object defaults, unit-bearing numbers, a plain sub-object used both as a member
+// and as a list item).
+func pureLibRun(tape *rt.Tape) RunRecord {
+	rec := RunRecord{Faults: map[string]int{}, Probes: map[string]int{}}
+	S := buildLibScope()
+	desc0, derr := selfDesc(S)
+	add := func(class, sig, detail string) {
+		rec.Violations = append(rec.Violations, Violation{"C12", class, sig, detail})
+	}
+	nops := 1 + tape.Choose("pl.nops", 12)
+	var pool []any
+	var history []string
+	sitesDrawn := 0
+	for i := 0; i < nops && len(rec.Violations) == 0; i++ {
+		op := &pureOp{Kind: []string{"unserialize", "unserialize", "unserialize", "validate", "serialize", "compat-data"}[tape.Choose("pl.kind", 6)]}
+		op.Arg = libValues(tape)
+		if (op.Kind == "validate" || op.Kind == "serialize") && len(pool) > 0 {
+			op.Arg = pool[tape.Choose("pl.pool", len(pool))]
+		}
+		history = append(history, op.Kind+"("+short(op.Arg)+")")
+		snapshot := deepCopyValue(op.Arg)
+		modes := []orderMode{{"natural", 0}, {"random", uint64(tape.Choose("pl.perm", 1<<30))}, {"reverse", 0}}
+		var base pureRes
+		for mi, m := range modes {
+			var r pureRes
+			sitesDrawn += withOrder(m, func() { r = evalOp(S, op, nil) })
+			if !reflect.DeepEqual(snapshot, op.Arg) {
+				add("mismatch", "argument-modified:"+op.Kind, fmt.Sprintf("op %d (%s) changed its argument from %s to %s", i, op.Kind, short(snapshot), short(op.Arg)))
+				break
+			}
+			if mi == 0 {
+				base = r
+				continue
+			}
+			if !sameOutcome(base, r) {
+				add("mismatch", "order-dependent:"+op.Kind, fmt.Sprintf("op %d %s: natural order gives %s, order %s gives %s; history=%v", i, op.Kind, describeRes(base), m.Name, describeRes(r), history))
+				break
+			}
+		}
+		if len(rec.Violations) > 0 {
+			break
+		}
+		fresh := buildLibScope()
+		var fr pureRes
+		withOrder(orderMode{"natural", 0}, func() { fr = evalOp(fresh, op, nil) })
+		if !sameOutcome(base, fr) {
+			add("mismatch", "history-dependent:"+op.Kind, fmt.Sprintf("op %d %s: the used instance gives %s, a fresh instance %s; history=%v", i, op.Kind, describeRes(base), describeRes(fr), history))
+			break
+		}
+		if derr == nil {
+			if d, err := selfDesc(S); err != nil || !reflect.DeepEqual(d, desc0) {
+				add("mismatch", "schema-changed-by:"+op.Kind, fmt.Sprintf("after op %d the self-description differs: %s", i, firstDiff(desc0, d, "")))
+				break
+			}
+		}
+		if op.Kind == "unserialize" && base.Err == nil && base.Panic == "" {
+			pool = append(pool, base.Val)
+		}
+	}
+	rec.Probes["map_iterations_ordered"] = sitesDrawn
+	rec.SchedSig = fmt.Sprintf("lib-%x", fnvString(fmt.Sprint(history)))
+	rec.LogHash = rec.SchedSig
+	rec.Nontrivial = sitesDrawn > 0
+	rec.Faults["map-order"] = sitesDrawn
+	rec.Steps = len(history)
+	rec.Sample = map[string]any{"schema": "struct-mapped library scope", "history": history}
 	if len(rec.Violations) > 0 {
 		rec.Outcome = "violation"
 	} else {
